@@ -48,6 +48,10 @@ def cell_of(fn, width):
         return c
     if isinstance(v, FlagValue):
         c["k"], c["flag"] = "flag", v.name
+    elif any(_same(v, f) for f in FlagValue):
+        # "either a value or one of the flags": a value that compares equal to a flag (or finds it in a set / as a dict
+        # key) is neither
+        c["k"], c["s"] = "other", "value-indistinguishable-from-flag"
     elif v is True or v is False:
         c["k"], c["small"] = "bool", int(v)
     elif isinstance(v, int):
@@ -72,6 +76,18 @@ def cell_of(fn, width):
     else:
         c["k"] = "other"
     return c
+
+
+def _same(a, b):
+    try:
+        if a == b or b == a:
+            return True
+    except Exception:
+        pass
+    try:
+        return a in {b} or a in {b: 1}
+    except Exception:       # unhashable values
+        return False
 
 
 def interp(v, raw, width):
@@ -158,6 +174,13 @@ def string_raws(rng, n, tier):
                 body = [0x47, 0x72, 0x6E, 0x20, 0x41][:at] + [0x41] * max(0, at - 5)
                 out.append((body[:at] + seq + [0] * n)[:n])
                 out.append((body[:at] + seq + [0x6E] * n)[:n])
+    # texts that read like the names of the flags ("not a value"): they are values
+    for word in ("MASK", "TMASK", "Invalid", "INVALID", "None", "True", "0"):
+        b = list(word.encode("ascii"))
+        if len(b) <= n:
+            out.append((b + [0] * n)[:n])
+            if len(b) < n:
+                out.append((b + [0x20] * n)[:n])
     for _ in range(300 if tier == "quick" else 6000):
         kind = rng.random()
         if kind < 0.5:
